@@ -5,6 +5,8 @@ import RbV.Spec.KChain
 import RbV.Model.QGramIter
 import RbV.Model.QGramMatches
 import RbV.Model.QGramIndex
+import RbV.Model.QGramExact
+import RbV.Model.LcskFwd
 /-! Driver for property C19 (line protocol → verdict).
 
 ```
@@ -164,6 +166,9 @@ def checkQuery (A : List Nat) (q mc : Nat) (text : List Nat) (qu : Query) (res :
   | .e pat =>
     let raw := exactMatchesRef mc q pat text
     let exp := sortRecs (raw.map fun r => [r.1, r.2.1, r.2.2.1, r.2.2.2])
+    -- mirror model of the Rust loop, proved to report the same records (Thm.C19.exact_matches_model_refines)
+    if sortRecs ((exactMatchesModel mc q pat text).map fun r => [r.1, r.2.1, r.2.2.1, r.2.2.2]) ≠ exp then
+      (some (false, "BADOP exact-model-vs-reference"), []) else
     if panicked then (classify false, []) else
     match parseRecs 4 res with
     | some l => if sortRecs l = exp then (none, (if exp.isEmpty then [] else ["e-hit"])
@@ -233,6 +238,11 @@ def lcsCheck (ms : List M) (k : Nat) (out : String) : Option String × List Stri
         if cs ≠ opt then (some s!"reject lcskpp-chain-not-optimal chain-score={cs} optimum={opt}", [])
         else if sc ≠ opt then (some s!"diff score {opt}", [])
         else (none, (if path.length ≥ 2 then ["chain>=2"] else []) ++
+              -- internal state: the `dp_vector` scores against the recurrence they implement (Thm.C19.dp_cell_is_best_chain_ending);
+              -- not fixed by the property, so a difference is only a drift tag
+              (match (outField out "dp").bind parseNatList with
+               | some dp => if dp = dpScores ms k then ["dp-cells-agree"] else ["drift-dp-cells"]
+               | none => ["dp-not-reported"]) ++
               (if (pathMatches ms path).zip ((pathMatches ms path).drop 1) |>.any (fun (a, b) => cont a b && !nonov k a b) then ["has-cont"] else []) ++
               (if (pathMatches ms path).zip ((pathMatches ms path).drop 1) |>.any (fun (a, b) => nonov k a b) then ["has-jump"] else []) ++
               (if ms.length ≤ 12 then ["enum-checked"] else []))
